@@ -97,7 +97,10 @@ class Probes:
         return ok
 
     def tick(self, d):
-        self.clock.time += d
+        if isinstance(self.clock, MovingClock):
+            self.clock.add(d)
+        else:
+            self.clock.time += d
 
     # -- one text in two roles: the very same source string is the guard of transition `ta` and the action of
     #    transition `tb` (dg), or the precondition `idx` of `owner` and the entry code of state `s` (dc).  Which role
@@ -184,6 +187,40 @@ class Inbox:
 
 META_NAMES = ['step started', 'step ended', 'event consumed', 'event sent', 'state exited',
               'state entered', 'transition processed']
+
+
+from sismic.clock import Clock as _Clock
+
+
+class MovingClock(_Clock):
+    """A clock that moves on while a step is being executed: armed before a call, its FIRST reading is exact and every
+    further reading during that call is one unit later (outside calls it stands still).  An interpreter that
+    samples the clock once per step (the documented behaviour) never notices; one that reads it again does."""
+
+    def __init__(self, start=0):
+        self.value = start
+        self.armed = False
+        self.reads = 0
+
+    @property
+    def time(self):
+        if self.armed:
+            self.reads += 1
+            return self.value + (1 if self.reads > 1 else 0)
+        return self.value
+
+    @time.setter
+    def time(self, v):
+        self.value = v
+
+    def add(self, d):
+        self.value += d
+
+    def arm(self):
+        self.armed, self.reads = True, 0
+
+    def disarm(self):
+        self.armed = False
 
 
 class Device:
